@@ -13,5 +13,14 @@ func init() {
 		{"R7s", ruleContain("sml")},
 		{"R6h", ruleAllocBound("hsms")},
 		{"R6s", ruleAllocBound("sml")},
+		{"R26", ruleHeaderBytes},
+		{"R1e", ruleEncodeTables},
+		{"R15", ruleToBytesGuard},
+		{"R1c", ruleDecodeDispatch},
+		{"R1d", ruleSTypes},
+		{"R22", ruleDecodeWidth},
+		{"R21d", ruleDecodeHeader},
+		{"R5", ruleFraming},
+		{"R17", ruleDivisibility},
 	}, Explanation: "tmp"})
 }
